@@ -222,6 +222,17 @@ func (it *Interp) intrinsic(name string, fn *ssa.Function, a []Val) Val {
 			return Bool(nx == ny)
 		}
 		return TFalse
+	case "CallMethod", "CallArgs":
+		data := a[1].(*StrV)
+		sl, ok := data.Boxed.(*SliceV)
+		if !ok || data.BoxK != "abicall" {
+			it.fail("rt.%s: not an ABI call payload: %s", name, it.describe(data))
+		}
+		if name == "CallMethod" {
+			return (*sl.Arr)[0]
+		}
+		rest := append([]Val(nil), (*sl.Arr)[1:sl.Len]...)
+		return &SliceV{Arr: &rest, Len: len(rest), Cap: len(rest)}
 	case "Tier":
 		if it.ex.cfg.Tier == "thorough" {
 			return BVi(64, 1)
